@@ -1,15 +1,12 @@
-use candid::{Decode, Encode};
+use candid_parser::utils::{service_compatible, CandidSource};
 fn main() {
-    let bytes = hex::decode("4449444c016c02007b017e01000000").unwrap();
-    let r = Decode!(&bytes, (u8,));
-    println!("{:?}", r.map_err(|e| e.to_string()));
-    #[derive(candid::CandidType, candid::Deserialize, Debug)]
-    struct S(u8);
-    #[derive(candid::CandidType, candid::Deserialize, Debug)]
-    struct S2(u8, bool);
-    let b = Encode!(&S2(1, true)).unwrap();
-    println!("{:?}", Decode!(&b, (u8,)).map_err(|e| e.to_string()));
-    println!("{:?}", Decode!(&b, S2).map_err(|e| e.to_string()));
-    let b = Encode!(&(1u8, true, 5u16)).unwrap();
-    println!("{:?}", Decode!(&b, (u8,bool)).map_err(|e| e.to_string()));
+    let p1 = "type A = func (service { f : A; g : A }) -> (nat, A) query;\ntype A_1 = record { ok : A; 0 : A };\nservice : { m : () -> (service { f : () -> (nat) composite_query }) }";
+    let p2 = "type A = func (service { f : A; g : A }) -> (nat, A) query;\ntype A_1 = record { ok : A; 0 : A };\nservice : { m : () -> (reserved) }";
+    println!("{:?}", service_compatible(CandidSource::Text(p1), CandidSource::Text(p2)).map_err(|e| e.to_string()));
+    let h = std::thread::Builder::new().stack_size(256<<20).spawn(move || {
+        println!("{:?}", service_compatible(CandidSource::Text(p1), CandidSource::Text(p2)).map_err(|e| e.to_string()));
+        println!("{:?}", stacker_remaining());
+    }).unwrap();
+    h.join().unwrap();
 }
+fn stacker_remaining() -> usize { 0 }
